@@ -114,10 +114,27 @@ def _shapes(tier: str, seed: int) -> List[dict]:
         exprs += list(gen.expr_shapes(1, leaves, named=True))
         deep = list(gen.expr_shapes(2, small[:4], named=True, sym_ops=False))
         exprs += gen.sample(deep, 1200, seed)
+    # explicit shapes: lists inside lists (a list is itself a literal kind), and nested lambdas that bind a DIFFERENT
+    # identifier which shares only the name or only the namespace with the variable
+    pv1, pv2 = gen.path_shape(1, root=V), gen.path_shape(2, root=V)
+    explicit = [
+        ("Compare", "In", ("List", [("Int", "1"), ("Int", "2")]), ("List", [("List", [pv1, pv2]), ("List", [("Int", "3"), ("Int", "4")])])),
+        ("Call", ("Id", "hassubset", ()), [pv1, ("List", [("List", [pv2, ("Str", NEW)]), ("List", [("Str", "v"), ("Str", "w")])])]),
+        ("List", [("List", [("List", [pv1])]), ("Null",)]),
+        ("Compare", "In", pv1, ("List", [("Int", "1"), ("Str", "s"), ("Null",), ("Int", "4"), ("Int", "5"), ("Int", "6"), ("Int", "7"),
+                                         ("Int", "8"), pv1])),
+        ("CLambda", pv1, "Any", ("Lambda", ("Id", ("$", 1), (("$", 2),)),
+                                 ("Compare", "Eq", ("Attr", ("Id", ("$", 1), (("$", 2),)), NEW), pv1))),
+        ("CLambda", pv2, "All", ("Lambda", ("Id", ("$", 1), ()),
+                                 ("BoolOp", "And", ("Compare", "Eq", ("Attr", ("Id", ("$", 1), ()), NEW), pv1),
+                                  ("CLambda", ("Attr", ("Id", ("$", 1), ()), NEW), "Any",
+                                   ("Lambda", ("Id", ("$", 2), (NEW,)), ("Compare", "Lt", pv2, ("Attr", ("Id", ("$", 2), ()), NEW))))))),
+    ]
+    exprs += explicit
     seen = set()
     for e in exprs:
         for var_ns in ((), (NEW,)):
-            if var_ns and tier == "quick" and len(out) % 3:   # namespaced variable on a third of shapes
+            if var_ns and tier == "quick" and len(out) % 3 and e not in explicit:   # namespaced variable on a third of shapes
                 continue
             var = ("Id", V, var_ns)
             sh, hs = gen.renumber(("pair", var, e))
@@ -129,16 +146,28 @@ def _shapes(tier: str, seed: int) -> List[dict]:
     return out
 
 
-def _lambda_vars(shape) -> List[int]:
-    """indices of holes used as nested lambda variables (must differ from the variable: C17 quantifier)."""
+def _lambda_vars(shape, var=None) -> List[Any]:
+    """nested lambda variables must be a different identifier than the variable (C17 quantifier): returns the hole index of
+    the lambda variable's name when its namespace has the same length as the variable's (then the names must differ, or -
+    for one-segment namespaces - the namespaces: returned as (name hole, ns hole)); a lambda variable whose namespace
+    length differs from the variable's is a different identifier whatever its name."""
     found = []
+    vns = len(var[2]) if var is not None else 0
 
     def walk(x):
         if isinstance(x, tuple):
             if x and x[0] == "Lambda":
                 idn = x[1]
                 if isinstance(idn[1], tuple) and idn[1][0] == "$":
-                    found.append(idn[1][1])
+                    lns = idn[2] if len(idn) > 2 else ()
+                    if var is None:
+                        found.append(idn[1][1])
+                    elif len(lns) == vns == 0:
+                        found.append(idn[1][1])
+                    elif len(lns) == vns == 1 and isinstance(lns[0], tuple) and isinstance(var[2][0], tuple):
+                        found.append((idn[1][1], lns[0][1], var[2][0][1]))
+                    elif len(lns) == vns:
+                        found.append(idn[1][1])
             for y in x:
                 walk(y)
         elif isinstance(x, list):
@@ -163,14 +192,18 @@ def main() -> int:
                   "expression_nesting": "<= 1 exhaustive over the leaf set, depth 2 seeded sample",
                   "shapes": len(SHAPES)}
     run.outside = ["names longer than one character (only equality between names is ever inspected)",
-                   "expression nesting deeper than 2", "nested lambdas re-binding the same variable name"]
+                   "expression nesting deeper than 2", "nested lambdas re-binding the same identifier (name and namespace)"]
     run.assumptions = ["tree shape is concrete per obligation; all leaf names and operator choices are symbolic",
-                       "nested lambda variables differ from the stripped variable (stated in the property)"]
+                       "nested lambda variables are a different identifier than the stripped variable (stated in the property): the name "
+                       "or the namespace differs - sharing only one of them is inside the claim"]
     items = []
     for i, sh in enumerate(SHAPES):
         params, pre, names = gen.signature(sh["holes"])
-        for j in _lambda_vars(sh["expr"]):
-            pre += f" and x{j} != x0"
+        for j in _lambda_vars(sh["expr"], sh["var"]):
+            if isinstance(j, tuple):
+                pre += f" and (x{j[0]} != x0 or x{j[1]} != x{j[2]})"
+            else:
+                pre += f" and x{j} != x0"
         items.append(Item(f"h{i}", params, pre, f"check({i}, ({', '.join(names)},))",
                           describe={"var": sh["var"], "expr": sh["expr"]}, family="relative"))
         if i % (4 if run.tier == "quick" else 1) == 0 and not _lambda_vars(sh["expr"]):
